@@ -53,9 +53,9 @@ func (a *Lin) scale(m int64) *Lin {
 	}
 	return r
 }
-func (a *Lin) sub(b *Lin) *Lin  { return a.add(b.scale(-1)) }
+func (a *Lin) sub(b *Lin) *Lin   { return a.add(b.scale(-1)) }
 func (a *Lin) plus(k int64) *Lin { r := a.clone(); r.K += k; return r }
-func (a *Lin) isConst() bool    { return len(a.C) == 0 }
+func (a *Lin) isConst() bool     { return len(a.C) == 0 }
 func (a *Lin) equal(b *Lin) bool {
 	d := a.sub(b)
 	return d.isConst() && d.K == 0
@@ -474,13 +474,13 @@ type symEnv struct {
 	// inlinable: calls of private helpers that are interpreted by stepping into their bodies
 	// (returns the declaration to inline, or nil).  recvs: receiver objects of the frames on the
 	// inline stack (helpers of the same object see the same fields).
-	inlinable   func(call *ast.CallExpr) *ast.FuncDecl
-	recvs       map[types.Object]bool
+	inlinable    func(call *ast.CallExpr) *ast.FuncDecl
+	recvs        map[types.Object]bool
 	onInlineBind func(caller, callee *symState, param types.Object, arg ast.Expr) // facts about an argument follow it into the helper
-	inlineSkip  map[*types.Func]bool // never interpreted in place (abstracted by a resolve hook instead)
-	inlineStack []*ast.FuncDecl
-	strIDs      map[string]int64 // string constants used as switch labels
-	havocN     int
+	inlineSkip   map[*types.Func]bool                                             // never interpreted in place (abstracted by a resolve hook instead)
+	inlineStack  []*ast.FuncDecl
+	strIDs       map[string]int64 // string constants used as switch labels
+	havocN       int
 }
 
 type symState struct {
@@ -1558,17 +1558,17 @@ func dedup(xs []string) []string {
 }
 
 // helpers to build spec formulas
-func sym(s string) *Lin                  { return linSym(s) }
-func k(n int64) *Lin                     { return linConst(n) }
-func lt(a, b *Lin) *F                    { return fCmp(token.LSS, a, b) }
-func le(a, b *Lin) *F                    { return fCmp(token.LEQ, a, b) }
-func gt(a, b *Lin) *F                    { return fCmp(token.GTR, a, b) }
-func ge(a, b *Lin) *F                    { return fCmp(token.GEQ, a, b) }
-func eq(a, b *Lin) *F                    { return fCmp(token.EQL, a, b) }
-func ne(a, b *Lin) *F                    { return fCmp(token.NEQ, a, b) }
-func and(xs ...*F) *F                    { return fAndOf(xs...) }
-func or(xs ...*F) *F                     { return fOrOf(xs...) }
-func not(x *F) *F                        { return fNotOf(x) }
+func sym(s string) *Lin { return linSym(s) }
+func k(n int64) *Lin    { return linConst(n) }
+func lt(a, b *Lin) *F   { return fCmp(token.LSS, a, b) }
+func le(a, b *Lin) *F   { return fCmp(token.LEQ, a, b) }
+func gt(a, b *Lin) *F   { return fCmp(token.GTR, a, b) }
+func ge(a, b *Lin) *F   { return fCmp(token.GEQ, a, b) }
+func eq(a, b *Lin) *F   { return fCmp(token.EQL, a, b) }
+func ne(a, b *Lin) *F   { return fCmp(token.NEQ, a, b) }
+func and(xs ...*F) *F   { return fAndOf(xs...) }
+func or(xs ...*F) *F    { return fOrOf(xs...) }
+func not(x *F) *F       { return fNotOf(x) }
 
 // holdsOn reports whether formula f holds on every integer point of the path's
 // region (base && cube): (holds, decided).
